@@ -4,9 +4,11 @@ import (
 	"context"
 	"encoding/json"
 	"fmt"
+	"math/big"
 	"net/http"
 	"net/http/httptest"
 	"runtime"
+	"strconv"
 	"strings"
 	"sync"
 
@@ -293,7 +295,7 @@ func c03Conformance(r *ev.Run, pkg *Package, spec *C03Spec, fam *C03Family, valu
 		built++
 		r.Eval(1)
 		r.Distinct("conf|" + spec.Key + fam.Root + "|" + string(text))
-		if !schemaref.Decidable(root, inst, res) {
+		if !schemaref.Decidable(root, inst, res) || hasInexactBigInteger(inst) {
 			// includes numbers whose shortest decimal text is not the exact binary64 value: the generated
 			// validator works on the float, the reference on the text
 			r.Count("conformance_outside_deciding_domain", 1)
@@ -339,4 +341,31 @@ func whyClass(why string) string {
 		}
 	}
 	return "other"
+}
+
+// hasInexactBigInteger: the instance has a number spelled as an integer beyond 2^53 whose text is not the exact
+// value of the nearest float64 (a float64 member printed in shortest form and padded with zeros): the generated
+// validator judges the float, the reference the text.
+func hasInexactBigInteger(v *jsonv.Value) bool {
+	found := false
+	v.Walk(func(x *jsonv.Value) {
+		if found || x.Kind != jsonv.Number || !schemaref.IntegerText(x.Num) {
+			return
+		}
+		t := strings.TrimPrefix(x.Num.Text, "-")
+		if len(t) < 16 {
+			return
+		}
+		f, err := strconv.ParseFloat(t, 64)
+		if err != nil {
+			found = true
+			return
+		}
+		bf := new(big.Float).SetFloat64(f)
+		bi, _ := bf.Int(nil)
+		if bi.String() != t {
+			found = true
+		}
+	})
+	return found
 }
